@@ -33,6 +33,7 @@ type CheckCfg struct {
 	Assumptions    []string `json:"assumptions"`
 	Bounds         map[string]string `json:"bounds"`
 	Workers        int      `json:"workers"`
+	EagerSSA       bool     `json:"eager_ssa"` // build all SSA before exploring (see load.go)
 	ConcIndexMax   int      `json:"concretize_index_max"` // symbolic indices into slices/arrays of at most this many cells are forked over instead of merged
 }
 
@@ -186,6 +187,7 @@ func cmdCheck(args []string) int {
 		return 2
 	}
 	defer ov.cleanup()
+	gEagerSSA = cfg.EagerSSA
 	ld, err := loadPackage(cfg.Pkg, ov)
 	if err != nil {
 		fmt.Println("ERROR: load:", err)
@@ -195,8 +197,10 @@ func cmdCheck(args []string) int {
 	if *only != "" {
 		var f2 []*ssa.Function
 		for _, f := range fns {
-			if f.Name() == *only {
-				f2 = append(f2, f)
+			for _, o := range strings.Split(*only, ",") {
+				if f.Name() == o {
+					f2 = append(f2, f)
+				}
 			}
 		}
 		fns = f2
